@@ -606,6 +606,12 @@ impl Prop for C14Bytes {
             Ok(Ok(m)) => m,
         };
         out.class("accepted");
+        if let Ok((a, _)) = dns::decode(b) {
+            if a.opt_count() >= 2 {
+                out.class("accepted-with-several-opt-records");
+                out.nontrivial = true;
+            }
+        }
         let bytes2 = match guard(|| m.serialise()) {
             Ok(x) => x,
             Err(f) => {
@@ -675,8 +681,23 @@ pub fn dns_bytes_strategy(sz: MsgSize) -> impl Strategy<Value = HexBytes> {
         message_strategy(sz),
         prop_oneof![Just(dns::Compress::Off), Just(dns::Compress::Owners), Just(dns::Compress::All)],
         proptest::collection::vec((any::<u16>(), any::<u8>(), 0u8..4), 0..3),
+        // further OPT pseudo-records anywhere in the message (a well-behaved sender writes at
+        // most one, last; the decoder accepts more, in any section, of any version)
+        proptest::collection::vec((crate::dnsconv::edns_strategy(), any::<u16>(), 0u8..6, 0u8..3), 0..3),
     )
-        .prop_map(|(m, c, edits)| {
+        .prop_map(|(mut m, c, edits, extra_opts)| {
+            for (e, pos, sec, version) in extra_opts {
+                let Some(mut e) = e else { continue };
+                e.version = if version == 2 { 1 } else { 0 };
+                let rr = dns::opt_rr(&e);
+                let v = match sec {
+                    0..=3 => &mut m.additional,
+                    4 => &mut m.authority,
+                    _ => &mut m.answer,
+                };
+                let i = pick_idx(pos, v.len() + 1);
+                v.insert(i, rr);
+            }
             let mut b = dns::encode(&m, c);
             for (pos, val, kind) in edits {
                 if b.is_empty() {
